@@ -1198,6 +1198,16 @@ pub fn run_c16(rep: &mut Report, driver: &str, workers: usize, thorough: bool, s
         let sv: String = (0..n).map(|_| loop { if let Some(c) = char::from_u32((rng.next_u64() % 0x110000) as u32) { break c; } }).collect();
         trees.push(lit(Value::String(sv)));
     }
+    // strings in which a line end meets a character that text tools strip, fold or treat as a separator (byte order mark,
+    // zero-width and bidi controls, NEL / LS / PS, trailing backslash before another literal)
+    for a in ["\n", "\r\n", "\r", "\u{85}", "\u{2028}", "\u{2029}"] {
+        for b in ["\u{feff}", "\u{200b}", "\u{2060}", "\u{202e}", "\\", " ", "//", "/*", "@k: i1;", "\u{feff}//"] {
+            for sv in [format!("x{}{}y", a, b), format!("{}{}", a, b), format!("{}{}", b, a), format!("x{}{}", b, a)] {
+                trees.push(lit(Value::String(sv.clone())));
+                trees.push(Expr::Vec(vec![lit(Value::String(sv.clone())), lit(Value::String(format!("{}z", sv)))]));
+            }
+        }
+    }
     let n = trees.len();
     let encs: Vec<String> = trees.iter().map(enc_expr).collect();
     let texts: Vec<String> = trees.iter().map(|e| e.to_string()).collect();
